@@ -32,7 +32,7 @@ ASSUMPTIONS = ["a two-element set flips iteration order between two random hash 
 FLOORS = {"quick": {"scenarios": 20, "worker_steps": 5000, "flag:competing_instructions_for_one_entity": 3}, "thorough": {"scenarios": 200}}
 
 SHIPPED = ["denver_demo.yaml", "denver_demo_fleets.yaml", "denver_demo_constrained_charging.yaml", "denver_no_stations.yaml", "denver_rl_toy.yaml"]
-PROFILE = profile(nv=(3, 8), n_requests=(10, 60), builtin=[True], n_scripted=[1], fleets=[0, 2, 2, 3], socs=[0.08, 0.12, 0.13, 0.3, 0.9, 0.97],
+PROFILE = profile(nv=(3, 8), n_requests=(10, 60), builtin=[True], n_scripted=[1], fleets=[0, 1, 2, 2, 3], socs=[0.08, 0.12, 0.13, 0.3, 0.9, 0.97],
                   max_plugs=1, stations=(1, 3), bases=(1, 3), timeouts=[300, 600], steps=[30, 60, 60, 120, 300], humans=True)
 
 
